@@ -4,7 +4,7 @@
    injected ';') to equal CSS is decided by the correspondence on the real compiler (harness/props/c12.py (b),(c)). *)
 From Coq Require Import String.
 From Coq Require Import List Ascii Bool NArith.
-Require Import Model.Text Model.ParamTypes Gen.Params Model.Lex Proofs.LexProofs.
+Require Import Model.Text Model.ParamTypes Gen.Params Model.Lex Model.Pipeline Proofs.LexProofs Proofs.PipelineProofs.
 Import ListNotations.
 Open Scope char_scope.
 
@@ -36,6 +36,16 @@ Theorem C12_layout_independent : forall g1 g2 f stk ip l1 l2 rest n,
   = erase (lex_filtered (List.length g2 + n) f (LS stk ip) l2 (render_gap g2 ++ rest)).
 Proof. exact layout_independent. Qed.
 Print Assumptions C12_layout_independent.
+
+(* END TO END on the model pipeline (lexer, token filter, reference parser, evaluator, formatter: Model/Pipeline.v): whatever was
+   lexed before, replacing a gap by another one that also contains / lacks whitespace leaves the compiled CSS unchanged *)
+Theorem C12_compile_layout_independent : forall o pre g1 g2 f stk ip l1 l2 rest n,
+  gap_wf g1 = true -> gap_wf g2 = true -> has_ws g1 = has_ws g2 ->
+  forallb gap_mode stk = true -> isel_once stk = true -> nongap_start rest = true ->
+  compile_tokres o (tapp pre (lex_filtered (List.length g1 + n) f (LS stk ip) l1 (render_gap g1 ++ rest)))
+  = compile_tokres o (tapp pre (lex_filtered (List.length g2 + n) f (LS stk ip) l2 (render_gap g2 ++ rest))).
+Proof. exact compile_layout_independent. Qed.
+Print Assumptions C12_compile_layout_independent.
 
 (* the semicolon after the last declaration: written or omitted, the parser receives ';' '}' and the same continuation *)
 Theorem C12_last_semicolon : forall g f last stk ip line rest n,
